@@ -845,6 +845,7 @@ def run_cl_property(prop, tier):
 
 def setup():
     build_harness()
+    build_harness(cl=True)
     ensure_layouts()
     fx = check_fixtures()
     print("setup ok: fixtures reproduced", fx)
